@@ -386,6 +386,8 @@ func visitInstr(fr *frame, instr ssa.Instruction) continuation {
 			fr.env[instr] = x[asInt64(idx)]
 		case symv:
 			fr.env[instr] = fr.i.R.symStrIndex(x, idx)
+		case symstr:
+			fr.env[instr] = x.b[asInt64(idx)]
 		default:
 			panic(fmt.Sprintf("unexpected x type in Index: %T", x))
 		}
